@@ -1,14 +1,16 @@
 #!/bin/bash
 R=${REPO:-/repo}   # REPO=<scratch worktree> lets several of these run side by side; the default is /repo itself
 # Re-runs every stored behaviour-preserving refactoring against the checks of the property it was written
-# around; prints ALARM for any on which the check is no longer silent. (Applies each patch to /repo and reverts it.)
+# around — or, with NEUTRAL_PROPS=all, against the checks of every property (a refactoring of a function is
+# neutral for all rules anchored in it, whichever property they belong to); prints ALARM for any on which a
+# check is no longer silent. (Applies each patch to $REPO and reverts it.)
 cd /verif
 bad=0
 for d in neutral/*/; do
   id=$(basename $d); prop=${id%-*}
   n=$((n+1)); if [ -n "$SHARD" ] && [ $((n % ${SHARD#*/})) -ne ${SHARD%/*} ]; then continue; fi   # SHARD=i/n: every n-th entry, offset i
   git -C $R apply /verif/$d/patch.diff 2>/dev/null || git -C $R apply -C1 /verif/$d/patch.diff 2>/dev/null || { echo "APPLY-FAILED $id"; continue; }
-  out=$(./bin/tmverif -repo $R -prop $prop -no-evidence 2>&1)
+  out=$(./bin/tmverif -repo $R -prop ${NEUTRAL_PROPS:-$prop} -no-evidence 2>&1)
   git -C $R checkout -- .
   if echo "$out" | grep -q "^VIOLATION\|LOAD-FAILED"; then echo "ALARM $id: $(echo "$out" | grep -m2 '^  VIOLATION\|^  UNDECIDED\|^  FLOOR\|LOAD-FAILED' | cut -c1-200)"; bad=1; else echo "silent $id"; fi
 done
